@@ -80,7 +80,11 @@ pub fn run(a: &Args) {
             line.u(outcome).u(3);
             let mut r = Line::bare(); r.z(traced).b(stopped > 0).u(0);
             out.count(&format!("run.{}", ["clean", "destination_failure", "unreadable_app_memory", "signals", "stop_failpoint"][mode as usize]));
-            if traced != 0 || stopped != 0 { out.notes.push(format!("not released after mode {mode} k {k}: {detail}")); }
+            if traced != 0 || stopped != 0 {
+                out.notes.push(format!("not released after mode {mode} k {k}: {detail}"));
+                // this process is the tracer of whatever was left attached: release it so that the next runs on this target start clean
+                unsafe { for (tid, _, tr) in target.thread_states() { if tr != 0 { libc::ptrace(libc::PTRACE_DETACH, tid, 0, 0); } } libc::kill(target.pid, libc::SIGCONT); }
+            }
             out.case(line.s(), r.s(), mode != 0);
             // every thread keeps running: spin counters advance
             std::thread::sleep(std::time::Duration::from_millis(2));
